@@ -240,10 +240,18 @@ Proof.
   - intros [[H ->]|[H ->]]; [left|right; left]; (split; [lra|reflexivity]).
 Qed.
 
+(* which variant of the source is being verified: does check_timing.py test the stored duration
+   against the block raster (repaired source) or calc_duration(block) (source as it is)? *)
+Definition raster_on_stored : bool :=
+  match ct_block_dur_term with TStored => true | _ => false end.
+Lemma checked_duration_spec b : checked_duration b = dur_on_raster raster_on_stored b.
+Proof. unfold checked_duration, dur_on_raster, raster_on_stored. destruct ct_block_dur_term; reflexivity. Qed.
+
 (* soundness and completeness of the report of one block *)
-Lemma check_block_spec sys b (x : err) : In x (check_block sys b) <-> BlockViolates sys b x.
+Lemma check_block_spec sys b (x : err) :
+  In x (check_block sys b) <-> BlockViolates raster_on_stored sys b x.
 Proof.
-  unfold check_block. rewrite eff_avail.
+  unfold check_block. rewrite eff_avail, checked_duration_spec.
   change (raster_of sys ct_block_raster) with (s_block_raster sys).
   rewrite !in_app_iff, In_div_errs, In_if, mismatch_spec, in_flat_map.
   split.
@@ -276,7 +284,8 @@ Proof.
 Qed.
 
 (* C10 report_complete_sound *)
-Theorem report_complete_sound sys bs (x : err) : In x (check_timing sys bs) <-> Violates sys bs x.
+Theorem report_complete_sound sys bs (x : err) :
+  In x (check_timing sys bs) <-> Violates raster_on_stored sys bs x.
 Proof.
   unfold check_timing, Violates. rewrite in_flat_map.
   split; intros (b & Hin & H); exists b; (split; [exact Hin|]); apply check_block_spec; exact H.
@@ -291,7 +300,7 @@ Qed.
 Lemma avail_no_mismatch b : block_duration b - b_stored b <= spec_eps -> avail b = block_duration b.
 Proof. intro H. unfold avail. destruct (Qlt_le_dec spec_eps (block_duration b - b_stored b)); [lra|reflexivity]. Qed.
 
-Lemma block_valid_iff sys b : BlockValid sys b <-> forall x, ~ BlockViolates sys b x.
+Lemma block_valid_iff v sys b : BlockValid v sys b <-> forall x, ~ BlockViolates v sys b x.
 Proof.
   split.
   - intros (HR & HM & HE & HRf & HAdc) x V.
@@ -307,39 +316,39 @@ Proof.
   - intro NV.
     assert (HM : block_duration b - b_stored b <= spec_eps).
     { destruct (Qlt_le_dec spec_eps (block_duration b - b_stored b)) as [H|H]; [|exact H].
-      exfalso. exact (NV _ (V_mismatch sys b H)). }
+      exfalso. exact (NV _ (V_mismatch v sys b H)). }
     unfold BlockValid. split; [|split; [exact HM|split; [|split]]].
-    + destruct (OnRaster_dec (block_duration b) (s_block_raster sys)) as [H|H]; [exact H|].
-      exfalso. exact (NV _ (V_block_raster sys b H)).
+    + destruct (OnRaster_dec (dur_on_raster v b) (s_block_raster sys)) as [H|H]; [exact H|].
+      exfalso. exact (NV _ (V_block_raster v sys b H)).
     + intros sl e Hin. split.
       * intro Hd. unfold NonNeg. destruct (Qlt_le_dec (e_delay e) (- spec_eps)) as [H|H]; [|exact H].
-        exfalso. exact (NV _ (V_negative sys b sl e Hin Hd H)).
+        exfalso. exact (NV _ (V_negative v sys b sl e Hin Hd H)).
       * intros a r Hf. destruct (OnRaster_dec (attr_val e a) r) as [H|H]; [exact H|].
-        exfalso. exact (NV _ (V_field sys b sl e a r Hin Hf H)).
+        exfalso. exact (NV _ (V_field v sys b sl e a r Hin Hf H)).
     + intros r R. split.
       * unfold AtLeast. destruct (Qlt_le_dec (e_delay r) (e_dead r - spec_eps)) as [H|H]; [|exact H].
-        exfalso. exact (NV _ (V_rf_dead sys b r R H)).
+        exfalso. exact (NV _ (V_rf_dead v sys b r R H)).
       * unfold Fits. destruct (Qlt_le_dec (block_duration b + spec_eps) (rf_last r)) as [H|H]; [|exact H].
-        exfalso. rewrite <- (avail_no_mismatch b HM) in H. exact (NV _ (V_rf_ring sys b r R H)).
+        exfalso. rewrite <- (avail_no_mismatch b HM) in H. exact (NV _ (V_rf_ring v sys b r R H)).
     + intros a A. split.
       * unfold AtLeast. destruct (Qlt_le_dec (e_delay a) (s_adc_dead sys - spec_eps)) as [H|H]; [|exact H].
-        exfalso. exact (NV _ (V_adc_dead sys b a A H)).
+        exfalso. exact (NV _ (V_adc_dead v sys b a A H)).
       * unfold Fits. destruct (Qlt_le_dec (block_duration b + spec_eps) (adc_end sys a)) as [H|H]; [|exact H].
-        exfalso. rewrite <- (avail_no_mismatch b HM) in H. exact (NV _ (V_adc_post sys b a A H)).
+        exfalso. rewrite <- (avail_no_mismatch b HM) in H. exact (NV _ (V_adc_post v sys b a A H)).
 Qed.
 
 (* C10 check_ok_iff *)
-Theorem check_ok_iff sys bs : check_timing sys bs = [] <-> TimingValid sys bs.
+Theorem check_ok_iff sys bs : check_timing sys bs = [] <-> TimingValid raster_on_stored sys bs.
 Proof.
   rewrite nil_iff_no_member. unfold TimingValid. rewrite Forall_forall.
   split.
   - intros H b Hin. apply block_valid_iff. intros x V.
     apply (H x). apply report_complete_sound. exists b. auto.
   - intros H x Hx. apply report_complete_sound in Hx. destruct Hx as (b & Hin & V).
-    exact (proj1 (block_valid_iff sys b) (H b Hin) x V).
+    exact (proj1 (block_valid_iff _ sys b) (H b Hin) x V).
 Qed.
 
-Lemma check_ok_true_iff sys bs : check_ok sys bs = true <-> TimingValid sys bs.
+Lemma check_ok_true_iff sys bs : check_ok sys bs = true <-> TimingValid raster_on_stored sys bs.
 Proof.
   rewrite <- check_ok_iff. unfold check_ok. destruct (check_timing sys bs); split; intro; congruence.
 Qed.
@@ -410,9 +419,9 @@ Qed.
 Definition DecodedRf (bs : list block) : Prop :=
   forall b r, In b bs -> b_rf b = Some r -> e_kind r = KRf /\ e_tlast r <= e_shape_dur r.
 
-Lemma block_valid_text_iff sys b :
+Lemma block_valid_text_iff v sys b :
   (forall r, b_rf b = Some r -> e_kind r = KRf /\ e_tlast r <= e_shape_dur r) ->
-  (BlockValid sys b <-> BlockValid_text sys b).
+  (BlockValid v sys b <-> BlockValid_text v sys b).
 Proof.
   intro Dec. unfold BlockValid, BlockValid_text. split.
   - intros (HR & HM & HE & HRf & HA). split; [exact HR|]. split; [exact HM|]. split; [exact HE|].
@@ -425,10 +434,10 @@ Proof.
 Qed.
 
 Theorem check_ok_iff_text sys bs : DecodedRf bs ->
-  (check_timing sys bs = [] <-> TimingValid_text sys bs).
+  (check_timing sys bs = [] <-> TimingValid_text raster_on_stored sys bs).
 Proof.
   intro Dec. rewrite check_ok_iff. unfold TimingValid, TimingValid_text. rewrite !Forall_forall.
-  split; intros H b Hin; apply (block_valid_text_iff sys b (fun r => Dec b r Hin)); auto.
+  split; intros H b Hin; apply (block_valid_text_iff _ sys b (fun r => Dec b r Hin)); auto.
 Qed.
 
 (* ------------------------------------------------ ok implies the write-time assertion -------- *)
@@ -446,12 +455,16 @@ Qed.
 
 Theorem ok_implies_write_clean sys bs :
   check_timing sys bs = [] ->
-  Forall (fun b => block_duration b <= b_stored b) bs ->       (* stored duration covers the content *)
+  (* the stored duration covers the content; not needed when the source tests the stored duration *)
+  (raster_on_stored = true \/ Forall (fun b => block_duration b <= b_stored b) bs) ->
   Forall (fun b => write_assert_ok sys b = true) bs.
 Proof.
   intros Hok Hc. apply check_ok_iff in Hok. unfold TimingValid in Hok.
-  rewrite Forall_forall in *. intros b Hin. apply write_assert_spec.
-  destruct (Hok b Hin) as (HR & _). pose proof (stored_le_block_duration b) as L.
+  rewrite Forall_forall in Hok. apply Forall_forall. intros b Hin. apply write_assert_spec.
+  destruct (Hok b Hin) as (HR & _). unfold dur_on_raster in HR.
+  destruct raster_on_stored eqn:V; [exact HR|].
+  destruct Hc as [Hc|Hc]; [discriminate Hc|].
+  rewrite Forall_forall in Hc. pose proof (stored_le_block_duration b) as L.
   specialize (Hc b Hin). cbv beta in Hc.
   assert (E : b_stored b == block_duration b) by lra.
   rewrite E. exact HR.
@@ -470,11 +483,14 @@ Definition cex_rf : event :=
 Definition cex_block : block :=
   {| b_id := 1%Z; b_stored := (1 # 1000) - (1 # 2000000000); b_rf := Some cex_rf; b_gx := None;
      b_gy := None; b_gz := None; b_adc := None; b_ext := [] |}.
-Lemma ok_write_clean_refuted :
+Lemma ok_write_clean_refuted : raster_on_stored = false ->
   exists sys bs, check_timing sys bs = [] /\ exists b, In b bs /\ write_assert_ok sys b = false.
 Proof.
-  exists cex_sys, [cex_block]. split; [vm_compute; reflexivity|].
-  exists cex_block. split; [left; reflexivity|vm_compute; reflexivity].
+  intro V. exists cex_sys, [cex_block]. split.
+  - (* evaluated on the real tables; in the repaired variant the premise V is absurd *)
+    revert V. unfold raster_on_stored. destruct ct_block_dur_term eqn:T; intro V; try discriminate V;
+      first [discriminate T | vm_compute; reflexivity].
+  - exists cex_block. split; [left; reflexivity|vm_compute; reflexivity].
 Qed.
 
 (* non-vacuity: a valid block and a faulty one *)
@@ -490,13 +506,12 @@ Definition ex_trap_bad : event :=
      e_flat := 8 # 10000; e_fall := 1 # 10000; e_duration := 0; e_dwell := 0; e_nsamp := 0%Z;
      e_tlast := 0; e_tfirst := 0; e_center := 0; e_use := 0%Z; e_regular := false |}.
 Definition ex_block_bad : block :=
-  {| b_id := 2%Z; b_stored := 1 # 1000; b_rf := None; b_gx := Some ex_trap_bad; b_gy := None;
+  {| b_id := 2%Z; b_stored := 1023 # 1000000; b_rf := None; b_gx := Some ex_trap_bad; b_gy := None;
      b_gz := None; b_adc := None; b_ext := [] |}.
 Lemma timing_examples :
-  TimingValid cex_sys [ex_block_ok] /\
+  TimingValid raster_on_stored cex_sys [ex_block_ok] /\
   check_timing cex_sys [ex_block_ok; ex_block_bad] =
-    [(2%Z, SBlock, A_duration, RASTER); (2%Z, SBlock, A_duration, BLOCK_DURATION_MISMATCH);
-     (2%Z, SGx, A_rise_time, RASTER)].
+    [(2%Z, SBlock, A_duration, RASTER); (2%Z, SGx, A_rise_time, RASTER)].
 Proof.
   split; [apply check_ok_iff; vm_compute; reflexivity|vm_compute; reflexivity].
 Qed.
